@@ -75,6 +75,18 @@ Theorem C11_history_bounds_true : forall (conv : atype -> pyval -> option pyval)
 Proof. exact history_bounds_true. Qed.
 Print Assumptions C11_history_bounds_true.
 
+(* What an append does depends on the schema ARGUMENT only through what it declares -- its schema_id and its
+   fields.  Two argument objects that agree on those but differ in any derived attribute (a schema_string that is
+   stale after dataclasses.replace, an in-place edit of .fields, an explicit schema_string=) are treated
+   identically: same outcome, same world.  In particular a stale attribute cannot get a divergent schema accepted
+   (the second step of the Example below carries a stale sstring and is rejected). *)
+Theorem C11_arg_object_irrelevant : forall (conv : atype -> pyval -> option pyval) (w : world) (e e' : event),
+  e_handle e = e_handle e' -> e_recs e = e_recs e' -> e_commit_ok e = e_commit_ok e' ->
+  same_decl (e_arg e) (e_arg e') ->
+  step conv w e = step conv w e'.
+Proof. exact step_same_decl. Qed.
+Print Assumptions C11_arg_object_irrelevant.
+
 (* A rejected append (no schema, divergent schema, invalid records, conversion error, failed commit)
    leaves the schema, the snapshot list with every snapshot's reachable data files, the data files
    present on storage, and the results of all scans unchanged.  Any table, with or without schema. *)
@@ -157,7 +169,7 @@ Print Assumptions C11_tx_history_scans.
 Definition ex_fields : list field :=
   [ {| fid := 1; fname := 0; ftype := T_long; fspell := 0; freq := true |};
     {| fid := 2; fname := 1; ftype := T_float; fspell := 0; freq := false |} ].
-Definition ex_ts : ischema := {| sid := 1; sfields := ex_fields |}.
+Definition ex_ts : ischema := {| sid := 1; sfields := ex_fields; sstring := 0 |}.
 Definition ex_rnd (q : Q) : num := Fin q.
 Definition ex_conv (a : atype) (v : pyval) : option pyval :=
   match a with
@@ -176,13 +188,14 @@ Definition ex_conv (a : atype) (v : pyval) : option pyval :=
 Definition ex_rec (a b : pyval) : record := [(0, a); (1, b)].
 Definition ex_history : list event :=
   [ {| e_handle := 0; e_arg := None; e_recs := [ex_rec (PV (VInt 7)) (PV (VFlt (Fin (1 # 2))))]; e_commit_ok := true |};
-    {| e_handle := 0; e_arg := Some {| sid := 1; sfields := rev ex_fields |}; e_recs := [ex_rec (PV (VInt 8)) (PV VNull)]; e_commit_ok := true |};
+    {| e_handle := 0; e_arg := Some {| sid := 1; sfields := rev ex_fields; sstring := 1 |}; e_recs := [ex_rec (PV (VInt 8)) (PV VNull)]; e_commit_ok := true |};
     {| e_handle := 1; e_arg := Some {| sid := 7; sfields :=
-         [ {| fid := 2; fname := 0; ftype := T_long; fspell := 0; freq := true |}; {| fid := 1; fname := 1; ftype := T_float; fspell := 0; freq := false |} ] |};
+         [ {| fid := 2; fname := 0; ftype := T_long; fspell := 0; freq := true |}; {| fid := 1; fname := 1; ftype := T_float; fspell := 0; freq := false |} ];
+         sstring := 1 |};
        e_recs := [ex_rec (PV (VInt 9)) (PV VNull)]; e_commit_ok := true |};
     {| e_handle := 0; e_arg := None; e_recs := [ex_rec (PV (VFlt (Fin (3 # 2)))) (PV VNull)]; e_commit_ok := true |};
     {| e_handle := 0; e_arg := None; e_recs := [ex_rec (PV (VInt 10)) (PV VNull)]; e_commit_ok := false |};
-    {| e_handle := 0; e_arg := Some {| sid := 7; sfields := ex_fields |}; e_recs := [[(0, PV (VInt 11))]]; e_commit_ok := true |} ].
+    {| e_handle := 0; e_arg := Some {| sid := 7; sfields := ex_fields; sstring := 0 |}; e_recs := [[(0, PV (VInt 11))]]; e_commit_ok := true |} ].
 
 Fixpoint outcomes (conv : atype -> pyval -> option pyval) (w : world) (es : list event) : list outcome :=
   match es with [] => [] | e :: es' => snd (step conv w e) :: outcomes conv (fst (step conv w e)) es' end.
